@@ -2,6 +2,7 @@ import AslModel.HttpParse
 import AslProofs.HttpParse
 import AslProofs.HttpDispatch
 import AslProofs.HttpQuery
+import AslProofs.HttpRange
 /-!
 # C09 — HTTP request parsing is total and safe and never yields a path containing `..`
 
@@ -456,5 +457,92 @@ example : foldHeaderLine ([], [], []) [32, 67, 111, 110, 116, 101, 110, 116, 45,
 example : (foldHeaderLine ([], [88], [97]) [32, 67, 111, 110, 116, 101, 110, 116, 45, 76, 101, 110, 103, 116, 104, 58, 32, 53, 13]).map (fun st => st.2.1) = some [88] := by decide
 example : (serve { inp := [71, 69, 84, 32, 47, 104, 100, 114, 32, 72, 84, 84, 80, 47, 49, 46, 49, 13, 10, 32, 67, 111, 110, 116, 101, 110, 116, 45, 76, 101, 110, 103, 116, 104, 58, 32, 53, 13, 10, 72, 111, 115, 116, 58, 32, 120, 13, 10, 13, 10, 104, 101, 108, 108, 111, 71, 69, 84, 32, 47, 115, 32, 72, 84, 84, 80, 47, 49, 46, 49, 13, 10, 13, 10] }).toOption.map
     (fun r => (r.2.length, r.1.closed)) = some (0, true) := by decide
+
+/-! ## extension: the `Range` parser, the `Upgrade: websocket` hand-off, one percent-decoding -/
+
+/-- **Range parser total, in bounds, in range**: for every header dictionary (so for every `Range` value, any bytes) and every
+    file size `n`, the parser of `HttpServer::serve` ends, never indexes outside the array `split('-')` returned (`partAt?`
+    would raise `oob`), and the answer is the whole file, "unsatisfiable", or `begin ≤ end < n` (through C10's `rangeOf`) -/
+theorem range_parser_safe (n : Nat) (h : Dic) :
+    ∃ a, rangeAnswer n h = .ok a ∧ (a = .whole ∨ a = .unsat ∨ ∃ b e, a = .part b e ∧ b ≤ e ∧ e < n) :=
+  AslProofs.HttpRange.rangeAnswer_spec n h
+
+/-- the same from the stream: whatever the peer sent, the request reader returns and the Range parser applied to the
+    headers it collected is total and in range -/
+theorem range_of_any_stream (s : Sock) (n : Nat) :
+    ∃ r a, AslModel.HttpParse.read s = .ok r ∧ rangeAnswer n r.1.headers = .ok a ∧
+      (a = .whole ∨ a = .unsat ∨ ∃ b e, a = .part b e ∧ b ≤ e ∧ e < n) := by
+  obtain ⟨r, hr, _⟩ := read_total s
+  obtain ⟨a, ha, hs⟩ := range_parser_safe n r.1.headers
+  exact ⟨r, a, hr, ha, hs⟩
+
+/-- the text after `bytes=` alone: both `parts[0]` and `parts[1]` exist whenever they are read -/
+theorem range_args_in_bounds (n : Nat) (spec : Bytes) : ∃ be, rangeArgs9 n spec = .ok be :=
+  AslProofs.HttpRange.rangeArgs9_ok n spec
+
+/-- **Upgrade hand-off consumes exactly the request head**: a well-formed request carrying `Upgrade: websocket`
+    (with its Content-Length body, if it announces one),
+    followed on the connection by any bytes `frame` (the first WebSocket frame, whole or in part, or nothing): the socket
+    the WebSocket server receives still holds exactly `frame` — nothing of it was read, nothing of the head is left -/
+theorem upgrade_handoff_exact (q : WfReq) (frame : Bytes) (hw : WellFormed q)
+    (hp : (reqOf q).path.length ≠ 0) (hu : cstr (header (hdrDic q.headers) sUpgrade) = sWebsocket) :
+    upgradeHandOff { inp := serialize q ++ frame } = .ok (some (hdrDic q.headers, { inp := frame })) := by
+  obtain ⟨t, ht, hr⟩ := read_faithful q frame hw
+  have hreq : (reqOf q).path = t.path := by simp [reqOf, ht]
+  rw [hreq] at hp
+  have hm : q.method.length ≠ 0 := by
+    have := hw.method_ne
+    intro h0; exact this (List.length_eq_zero_iff.mp h0)
+  have hpr : q.proto.length ≠ 0 := by
+    have := hw.proto_ok.1
+    intro h0; exact this (List.length_eq_zero_iff.mp h0)
+  unfold upgradeHandOff
+  simp only [hr, bind, Except.bind]
+  simp [hm, hpr, hp, hu, pure, Except.pure]
+
+/-- for every stream: when a hand-off happens, what the WebSocket server gets is a suffix of what was there — the HTTP side
+    never puts bytes back or skips ahead -/
+theorem upgrade_handoff_consumes_prefix (s : Sock) (h : Dic) (s' : Sock) (hh : upgradeHandOff s = .ok (some (h, s'))) :
+    ConsumesPrefix s s' := by
+  obtain ⟨r, hr, hc, _⟩ := read_total s
+  unfold upgradeHandOff at hh
+  simp only [hr, bind, Except.bind] at hh
+  split at hh
+  · simp [pure, Except.pure] at hh
+  · split at hh
+    · simp only [pure, Except.pure, Except.ok.injEq, Option.some.injEq, Prod.mk.injEq] at hh
+      rw [← hh.2]; exact hc
+    · simp [pure, Except.pure] at hh
+
+/-- **decoded exactly once**: for every path text `p` (no NUL, no `?`/`#`, no `..`) sent with its `%` escaped as `%25`,
+    the path handed over is `p` itself — `%252e%252e` arrives as the six bytes `%2e%2e`, never as `..` -/
+theorem path_decoded_once (p : Bytes) (hq : ∀ c ∈ p, c ≠ 35 ∧ c ≠ 63) (h0 : ∀ c ∈ p, c ≠ 0) (hdd : hasDD p = false) :
+    ∃ t, parseTarget (escPct p) = .ok t ∧ t.path = p := by
+  have hdec := AslProofs.HttpRange.urlDecodeSpec_escPct p
+  have hc : cstr (urlDecodeSpec (escPct p)) = p := by rw [hdec]; exact cstr_of_no_nul p h0
+  have hq' : ∀ c ∈ escPct p, c ≠ 35 ∧ c ≠ 63 := by
+    intro c hc
+    rcases AslProofs.HttpRange.mem_escPct p c hc with h | h | h
+    · exact hq c h
+    · subst h; decide
+    · subst h; decide
+  obtain ⟨t, ht, hpth, _, _⟩ := decoded_path_is_path_sent (escPct p) hq' (by rw [hc]; exact hdd)
+  exact ⟨t, ht, by rw [hpth, hc]⟩
+
+/-- one decoding is the inverse of one escaping, for every byte string -/
+theorem decode_inverts_one_escape (p : Bytes) : urlDecode (escPct p) = .ok p := by
+  rw [urldecode_total, AslProofs.HttpRange.urlDecodeSpec_escPct]
+
+-- Range: bytes=5-9 on 36 bytes, bytes=5 (one part), bytes=-4, bytes=40-50, other unit
+example : (rangeAnswer 36 [(sRange, [98, 121, 116, 101, 115, 61, 53, 45, 57])]).toOption = some (.part 5 9) := by decide
+example : (rangeAnswer 36 [(sRange, [98, 121, 116, 101, 115, 61, 53])]).toOption = some (.part 5 35) := by decide
+example : (rangeAnswer 36 [(sRange, [98, 121, 116, 101, 115, 61, 45, 52])]).toOption = some (.part 32 35) := by decide
+example : (rangeAnswer 36 [(sRange, [98, 121, 116, 101, 115, 61, 52, 48, 45, 53, 48])]).toOption = some .unsat := by decide
+example : (rangeAnswer 36 [(sRange, [105, 116, 101, 109, 115, 61, 49])]).toOption = some .whole := by decide
+-- `/%252e%252e/x` is the escaping of `/%2e%2e/x`, which is what arrives
+example : escPct [47, 37, 50, 101, 37, 50, 101, 47, 120] = [47, 37, 50, 53, 50, 101, 37, 50, 53, 50, 101, 47, 120] ∧
+    hasDD [47, 37, 50, 101, 37, 50, 101, 47, 120] = false := by decide
+example : (parseTarget [47, 37, 50, 53, 50, 101, 37, 50, 53, 50, 101, 47, 120]).toOption.map (·.path) =
+    some [47, 37, 50, 101, 37, 50, 101, 47, 120] := by decide
 
 end C09
